@@ -357,7 +357,7 @@ def read_elem(arr: sp.Basic, idx) -> sp.Basic:
             return read_elem(base, idx)
         return op("item", arr, idx)
     if f == "tabulate":
-        base, pat, val, lv = arr.args
+        base, pat, val, lv = arr.args[:4]
         return op("item", arr, idx)
     return op("item", arr, idx)
 
